@@ -134,8 +134,8 @@ class C18(Prop):
         "or raise; they may assign the public attributes of the object that is running them (modelled: the attributes "
         "are part of the adversary-visible state), but they do not call back into the loop that is invoking them "
         "(re-entrant tools: search-only line retools)",
-        "tool_calls returned by the provider is None or a finite list in the model (a generator object as tool_calls - "
-        "truthy even when empty - is a search-only line, gtools; an unbounded one is outside the property)",
+        "tool_calls returned by the provider is None, a list or a finite generator object (truthiness modelled apart from "
+        "content: ToolAdv.truthy); an unbounded iterable is outside the property",
         "worker outputs are ASCII strings in the correspondence (str.upper is CPython's); md5 prefixes are taken as "
         "injective on the outputs explored",
         "the mitochondria seen by transcribe_with_tools is the real Mitochondria around a scripted tool function for "
@@ -326,7 +326,9 @@ class C18(Prop):
         fam = rng.choice(["forever", "forever", "stopat", "none", "raise", "random"])
         k = rng.randint(0, n)
         ps = {"forever": rng.choice("1123"), "stopat": rng.choice("12") * k + rng.choice("0N"), "none": rng.choice("0N"),
-              "raise": "1" * k + rng.choice("xxuqte"), "random": "".join(rng.choice("01123Nxu") for _ in range(n))}[fam]
+              "raise": "1" * k + rng.choice("xxuqte"), "random": "".join(rng.choice("01123NxuGJ") for _ in range(n))}[fam]
+        if rng.random() < 0.08:       # tool_calls as generator objects: G yields nothing (still truthy), J one call
+            ps = "".join(rng.choice("GGJ1") for _ in range(rng.randint(1, n))) + rng.choice("GJ0")
         ts = rng.choice(["o", "o", "f", "of", "o" * k + "x", "".join(rng.choice("ooofxubwngLUP") for _ in range(n)),
                          "b", "w", "n", "g", "L", "U", "P"])
         cs = rng.choice(["r", "r", "r", "x", "u", "q", "t", "e", "ur", "xr", "qqr"])
@@ -925,6 +927,11 @@ class C18(Prop):
                     calls = [Call(i * 10 + j) for j in range(int(item))]
                     evs.append(("T", view(prompt), str(len(calls))))
                     return r, calls
+                if item in "GJ":      # tool_calls as a GENERATOR OBJECT (truthy even when it yields nothing)
+                    calls = [Call(i * 10)] if item == "J" else []
+                    r.rid = 3000 + i
+                    evs.append(("T", view(prompt), str(len(calls))))
+                    return r, (c for c in calls)
                 evs.append(("T", view(prompt), "0"))
                 return r, None
 
